@@ -209,6 +209,57 @@ fn c07_outcomes(rep: &mut Report, replay: &Option<Value>) {
     }
 }
 
+#[derive(serde_derive::Deserialize, serde_derive::Serialize, Debug, PartialEq)]
+struct TypedReply {
+    v: String,
+}
+
+/// replies whose parameters do not fit the caller's reply type: the call fails, the connection is free again
+fn c07_typed(rep: &mut Report, replay: &Option<Value>) {
+    type TMC = MethodCall<Value, TypedReply, varlink::Error>;
+    let replies = vec![json!({"parameters": {"v": "ok"}}), json!({"parameters": {"v": 7}}), json!({"parameters": {}}), json!({}), json!({"parameters": {"v": null}}), json!({"parameters": [1]}), json!({"parameters": {"v": "ok", "extra": 1}})];
+    for reply in replies {
+        for mode in ["call", "more"] {
+            let case = json!({"part": "typed", "reply": reply, "mode": mode});
+            if let Some(r) = replay {
+                if *r != case {
+                    continue;
+                }
+            }
+            rep.eval(Some(&case.to_string()));
+            let first = std::sync::atomic::AtomicBool::new(true);
+            let rb = frame(&reply);
+            let (conn, _peer) = mk_conn(Arc::new(move |req: &Value| if first.swap(false, std::sync::atomic::Ordering::SeqCst) { rb.clone() } else { frame(&json!({"parameters": {"v": req["parameters"]["tok"]}})) }));
+            let good = reply["parameters"]["v"].is_string();
+            let r = guarded(|| {
+                let mut mc = TMC::new(conn.clone(), "a.b.C", json!({"tok": "first"}));
+                let first: Vec<Result<TypedReply, String>> = if mode == "call" {
+                    vec![mc.call().map_err(|e| kind_name(&e))]
+                } else {
+                    match mc.more() {
+                        Err(e) => vec![Err(kind_name(&e))],
+                        Ok(it) => it.take(3).map(|r| r.map_err(|e| kind_name(&e))).collect(),
+                    }
+                };
+                let second = TMC::new(conn.clone(), "a.b.C", json!({"tok": "second"})).call().map_err(|e| kind_name(&e));
+                (first, second)
+            });
+            match r {
+                Err(p) => rep.violation("C07/typed/panic", &p, case),
+                Ok((first, second)) => {
+                    rep.outcome(&format!("{:?}", first));
+                    if first.len() != 1 || first[0].is_ok() != good {
+                        rep.violation("C07/typed/outcome", &format!("reply {} with reply type {{v: string}} gave {:?} (exactly one item, Ok iff the parameters fit)", reply, first), case.clone());
+                    }
+                    if second != Ok(TypedReply { v: "second".into() }) {
+                        rep.violation("C07/typed/connection-not-freed", &format!("after the final reply {} the next call returned {:?}", reply, second), case);
+                    }
+                }
+            }
+        }
+    }
+}
+
 // ------------------------------------------------------------------ C07 (b) single-thread histories
 
 #[derive(Debug, Clone, Copy, PartialEq)]
@@ -218,8 +269,10 @@ enum HOp {
     Next,
     Oneway,
     Resend,
+    /// the caller drops a (possibly unfinished) iteration object
+    DropIter,
 }
-const HOPS: [HOp; 5] = [HOp::Call, HOp::More, HOp::Next, HOp::Oneway, HOp::Resend];
+const HOPS: [HOp; 6] = [HOp::Call, HOp::More, HOp::Next, HOp::Oneway, HOp::Resend, HOp::DropIter];
 
 fn c07_histories(rep: &mut Report, replay: &Option<Value>, maxlen: usize, args: &Args) {
     let mut idx = 0u64;
@@ -245,6 +298,7 @@ fn c07_histories(rep: &mut Report, replay: &Option<Value>, maxlen: usize, args: 
         let mut last: Option<MC> = None;
         let mut expected_wire: Vec<(String, &'static str)> = vec![];
         let mut bad: Option<(String, String)> = None;
+        let mut abandoned = false;
         let r = guarded(|| {
             for (k, op) in ops.iter().enumerate() {
                 let tok = format!("t{}", k);
@@ -316,6 +370,13 @@ fn c07_histories(rep: &mut Report, replay: &Option<Value>, maxlen: usize, args: 
                             Some(n) => Some(n - 1),
                         };
                     }
+                    HOp::DropIter => {
+                        // replies of an unfinished iteration are still in flight: the connection stays busy (for ever);
+                        // what must never happen is that a later call reads one of them
+                        if iter.take().is_some() && busy_remaining.is_some() {
+                            abandoned = true;
+                        }
+                    }
                     HOp::Resend => {
                         let target = match (last.as_mut(), iter.as_mut()) {
                             (Some(l), _) => l,
@@ -355,6 +416,13 @@ fn c07_histories(rep: &mut Report, replay: &Option<Value>, maxlen: usize, args: 
                 }
             }
             let fin = MC::new(conn.clone(), "a.b.C", json!({"tok": "final"})).call().map(|v| v["tok"].as_str().unwrap_or("?").to_string()).map_err(|e| kind_name(&e));
+            if abandoned {
+                // an iteration was dropped with replies outstanding: busy is the only acceptable answer
+                if fin != Err("ConnectionBusy".into()) {
+                    bad = Some(("C07/history/abandoned-iteration-not-busy".into(), format!("an iteration was dropped with replies outstanding; a later call returned {:?} instead of ConnectionBusy", fin)));
+                }
+                return;
+            }
             if fin != Ok("final".into()) {
                 bad = Some(("C07/history/not-usable-again".into(), format!("after the history a fresh call returned {:?}", fin)));
                 return;
@@ -367,6 +435,9 @@ fn c07_histories(rep: &mut Report, replay: &Option<Value>, maxlen: usize, args: 
         }
         if let Some((sig, what)) = bad {
             rep.violation(&sig, &what, case);
+            continue;
+        }
+        if abandoned {
             continue;
         }
         // what reached the peer: exactly the non-busy requests, flags as requested (C04 client clause)
@@ -393,10 +464,13 @@ fn c07_histories(rep: &mut Report, replay: &Option<Value>, maxlen: usize, args: 
 }
 
 fn c07(args: &Args) -> ! {
-    let mut rep = Report::new("C07", "(a) every reply object over {no error | each of the 4 standard errors | custom | other service-prefixed | empty name} x parameters {absent, right member, ill-typed member, other member, {}, null, non-object} x continues {absent,false} through MethodCall::call; (b) every history over {call, more, next, oneway, second send on the same object} up to length 4 (thorough 6) on one connection against a synchronous scripted peer, compared step by step with a slots-free/taken model (busy => ConnectionBusy and no byte written; resend => MethodCalledAlready; after the final reply the connection is free; the peer saw exactly the non-busy requests with the right flags); non-trivial = distinct reply object / history");
+    let mut rep = Report::new("C07", "(a) every reply object over {no error | each of the 4 standard errors | custom | other service-prefixed | empty name} x parameters {absent, right member, ill-typed member, other member, {}, null, non-object} x continues {absent,false} through MethodCall::call; (a') final replies whose parameters do not fit the caller's reply type (the call fails, the connection is free again); (b) every history over {call, more, next, oneway, second send on the same object, drop of the iteration object} up to length 4 (thorough 6) on one connection against a synchronous scripted peer, compared step by step with a slots-free/taken model (busy => ConnectionBusy and no byte written; resend => MethodCalledAlready; after the final reply the connection is free; the peer saw exactly the non-busy requests with the right flags); non-trivial = distinct reply object / history");
     let replay = args.replay_case();
     if replay.as_ref().map(|r| r["part"] == "outcome").unwrap_or(true) && args.shard == 0 {
         c07_outcomes(&mut rep, &replay);
+    }
+    if replay.as_ref().map(|r| r["part"] == "typed").unwrap_or(true) && args.shard == 0 {
+        c07_typed(&mut rep, &replay);
     }
     if replay.as_ref().map(|r| r["part"] == "history").unwrap_or(true) {
         c07_histories(&mut rep, &replay, if args.thorough() { 6 } else { 4 }, args);
